@@ -609,7 +609,7 @@ fn run_text(th: usize, ti: usize, t: &Text, dir: &Path, watch: &Watch, sh: &Shar
             end += 1;
         }
         let build = |name: &str, kind: &str| {
-            let called = src[end..].starts_with('(');
+            let called = src[end..].trim_start().starts_with('(');
             let call = if *q == 1 && kind == "Method" && !called { "()" } else { "" };
             format!("{}{}{}{}", &src[..start], name, call, &src[end..])
         };
@@ -623,7 +623,8 @@ fn run_text(th: usize, ti: usize, t: &Text, dir: &Path, watch: &Watch, sh: &Shar
         };
         let mut bases: BTreeMap<String, (BTreeSet<String>, bool)> = BTreeMap::new();
         for (name, kind) in items {
-            let next_is_call = src[end..].starts_with('(');
+            // `p.x` followed (even across a line break) by `(` is parsed as a call of `x`
+            let next_is_call = src[end..].trim_start().starts_with('(');
             if *q == 1 && kind == "Field" && next_is_call {
                 sh.push(format!("CMP\t{}\tdot\t{}\t{}\t{}\t{}\tskip:field-before-call\t\t", t.id, l, c, name, kind));
                 continue;
@@ -851,6 +852,7 @@ pub fn main(args: &util::Args) {
             let seed = args.seed;
             s.spawn(move || {
                 let _ = std::fs::create_dir_all(&dir);
+                watch.register(th);
                 loop {
                     let i = next.fetch_add(1, Ordering::SeqCst);
                     if i >= texts.len() {
